@@ -593,6 +593,18 @@ def _check_stack_methods(run: Run, ctx, m, st) -> None:
     run.check(ok, "C02.R3b", define, define.node, "define_name writes frames[-1][name] = val, unconditionally", "define_name does not (always) define the name in the innermost frame: a definition that is skipped for some values (e.g. a name bound to itself) no longer shadows an outer binding of the same name")
 
 
+def _loop_or_self(n: ast.AST) -> ast.AST:
+    """the for-loop a statement sits in (a frame filled by a loop over the parameters), else the node itself"""
+    from ..model import ancestors as _anc
+
+    for a_ in _anc(n):
+        if isinstance(a_, ast.For):
+            return a_
+        if isinstance(a_, (ast.FunctionDef, ast.AsyncFunctionDef)):
+            break
+    return n
+
+
 def _check_shadow_lambda(run: Run, ctx, m, vl: FuncInfo, prop: str) -> None:
     """visit_Lambda of a substituter: shadow frame with all five parameter kinds around the body visit."""
     rule_d = f"{prop}.R3d" if prop == "C02" else f"{prop}.R2"
@@ -606,7 +618,7 @@ def _check_shadow_lambda(run: Run, ctx, m, vl: FuncInfo, prop: str) -> None:
     run.check(not missing, rule_d, vl, vl.node, "all five kinds of lambda parameters are shadowed", f"visit_Lambda does not shadow the lambda's {'/'.join(missing)} parameters: a pending substitution replaces names bound by them")
     from ..lib import call_events, event_after, event_before
 
-    evs = call_events(ctx, vl, lambda nm: nm in ("generic_visit", "define_name", "append", "pop"))
+    evs = call_events(ctx, vl, lambda nm: nm in ("generic_visit", "define_name", "append", "pop", "push_stack_frame", "pop_stack_frame"))
     gvs = [e for e in evs if e.name == "generic_visit"]
     run.check(len(gvs) == 1, rule_d, vl, vl.node, "the lambda is visited once under the shadow frame", f"{len(gvs)} generic_visit calls in visit_Lambda")
     if len(gvs) != 1:
@@ -625,9 +637,22 @@ def _check_shadow_lambda(run: Run, ctx, m, vl: FuncInfo, prop: str) -> None:
 
         ok = _in(gv) and bool(defines) and all(_in(d) for d in defines) and all(event_before(ctx, vl, d, gv) or (d.site is not gv.site and cfg.dominates(cfg.node_of(_outer_stmt(d.call, w)), gv.site)) if d.owner is vl else event_before(ctx, vl, d, gv) for d in defines)
         run.check(ok, rule_d, vl, w, "parameters are defined in a frame that encloses the visit of the body", "the shadow frame does not enclose the visit of the lambda body (or is filled after it)")
+    elif any(e.name == "push_stack_frame" for e in evs):
+        # the frame opened and closed by hand: push_stack_frame(); try: define..; visit; finally: pop_stack_frame()
+        opens = [e for e in evs if e.name == "push_stack_frame"]
+        closes = [e for e in evs if e.name == "pop_stack_frame"]
+        ok = len(opens) == 1 and len(closes) == 1 and opens[0].recv is not None and opens[0].recv == closes[0].recv and bool(defines)
+        ok = ok and event_before(ctx, vl, opens[0], gv) and event_after(ctx, vl, closes[0], gv) and all(d.recv == opens[0].recv and event_before(ctx, vl, opens[0], d) and (event_before(ctx, vl, d, gv) or fa.cfg.dominates(cfg.node_of(_loop_or_self(d.call)), gv.site)) for d in defines if d.owner is vl)
+        # closed on exceptional exits too: the close sits in a `finally` whose try contains the visit
+        from ..model import ancestors as _anc
+
+        in_fin = any(isinstance(a_, ast.Try) and any(closes[0].call is y for x in a_.finalbody for y in ast.walk(x)) and any(gv.call is y for b_ in a_.body for y in ast.walk(b_)) for a_ in _anc(closes[0].call)) if closes and closes[0].owner is vl and gv.owner is vl else False
+        run.check(ok and in_fin, rule_d, vl, vl.node, "shadow frame pushed before and popped (in a finally) after the body is visited", "the shadow frame is not pushed before / popped after the visit of the lambda body on every path (including exceptional exits)")
+        ok = None
     else:
         pops = [e for e in evs if e.name == "pop" and e.recv is not None and root_of(e.recv) == selfp_]
         ok = len(defines) == 1 and len(pops) == 1 and defines[0].recv == pops[0].recv and event_before(ctx, vl, defines[0], gv) and event_before(ctx, vl, gv, pops[0]) and event_after(ctx, vl, pops[0], gv)
+    if not withs and ok is not None:
         run.check(ok, rule_d, vl, vl.node, "shadow frame pushed before and popped after the body is visited, on every path", "the shadow frame is not pushed before / popped after the visit of the lambda body on every path")
     # R3e: capture avoidance - the binder must be renamed (fresh) while substitutions are pending
     renames = any(isinstance(c.func, ast.Name) and c.func.id in ("arg_name", "make_args_unique") for c in calls_in(vl))
